@@ -64,12 +64,12 @@ META = {
         design_ref="DESIGN.md 4/C08"),
     "C09": dict(
         text="New/Len/Cmp/CmpUpto/StrCmpUpto compared with []bool bit strings under lexicographic prefix-first order on generated, deliberately correlated pairs (flips around the shorter end, prefix relations, flips in masked-off bits, payloads across the 8-byte fast path), exhaustively for all encodings of strings of length <= 2 over {00,01,7f,80,ff}; StrCmpUpto is called from four call contexts and its string argument is compared before/after.",
-        note="Trusted: []bool oracle, toolchain, rapid. Ranges outside the string are not generated; StrCmpUpto's unsafe cast is only judged by observable results/panics.",
+        note="Trusted: []bool oracle, toolchain, rapid. Ranges outside the string are not generated; StrCmpUpto's unsafe cast is only judged by observable results/panics. Random sources stop at 64 bytes; beyond that only the maximum string (2^28 bytes, fixed sparse description) is encoded, at its top.",
         technique="property-based differential testing vs bit-string model order + exhaustive small-alphabet grid + coverage-guided fuzzing",
         design_ref="DESIGN.md 4/C09"),
     "C11": dict(
         text="FromStr32/PathOf/PathStr compared with bit-by-bit extraction on generated (string, start, width) triples including starts at and far beyond the end, and on a complete grid over (start mod 8, width 0..32, bytes remaining 0..6); PathsOf compared with an own map + drop-equal-to-predecessor loop on key lists with adjacent and non-adjacent repeats, including the all-ones path at height 32 (the defect found and fixed).",
-        note="Trusted: bit-level oracle, model.PathWord, toolchain, rapid. Precondition from the callers: from + width <= 2^31-1.",
+        note="Trusted: bit-level oracle, model.PathWord, toolchain, rapid. Precondition for FromStr32: from + width <= 2^31-1 (its end argument is an int32). Strings beyond 2^28 bytes are not explored; the maximum string (2^28 bytes, fixed sparse description) is part of every run.",
         technique="property-based differential testing vs bit-level extraction + complete alignment/width grid + coverage-guided fuzzing",
         design_ref="DESIGN.md 4/C11"),
     "C12": dict(
